@@ -139,4 +139,70 @@ def replace (x : PV) (ups : List (String × PV)) : Except Err PV :=
     | .ok fs' => .ok (.inst cls fr fs')
     | .error e => .error e
 
+/-! ### `struct.field(pytree_node=…, metadata=m)`
+
+`dataclasses.field(metadata=(m or {}) | {'pytree_node': pytree_node}, **kwargs)`: every call builds a
+NEW mapping (dict union, the right operand wins), so the caller's dict `m` is only read — also when one
+dict object is passed to several `field` calls, and also when it already carries a (stale)
+`'pytree_node'` entry.  `struct.dataclass` later reads each field's flag with
+`field_info.metadata.get('pytree_node', True)`. -/
+
+/-- a metadata mapping; values are opaque ints, `'pytree_node'` holds 1 / 0 -/
+abbrev Meta := List (String × Int)
+
+def metaGet : Meta → String → Option Int
+  | [], _ => none
+  | (k, v) :: r, key => if k = key then some v else metaGet r key
+
+/-- `m | {key: v}` -/
+def metaSet : Meta → String → Int → Meta
+  | [], key, v => [(key, v)]
+  | (k, x) :: r, key, v => if k = key then (k, v) :: r else (k, x) :: metaSet r key v
+
+/-- one field declaration: its name, the `pytree_node` argument, and which of the caller's metadata dict
+objects was passed (`none` = `metadata=None`; equal ids = the *same* dict object) -/
+structure FieldSpec where
+  name : String
+  node : Bool
+  metaId : Option Nat
+  deriving Repr, DecidableEq
+
+def callerMeta (store : List Meta) : Option Nat → Meta
+  | none => []
+  | some i =>
+    match store[i]? with
+    | some m => m
+    | none => []         -- (an id outside the store is a harness bug; it reads as an empty dict)
+
+/-- the metadata mapping `struct.field` gives to the field -/
+def fieldMeta (store : List Meta) (f : FieldSpec) : Meta :=
+  metaSet (callerMeta store f.metaId) "pytree_node" (if f.node then 1 else 0)
+
+/-- `field_info.metadata.get('pytree_node', True)` -/
+def metaFlag (m : Meta) : Bool :=
+  match metaGet m "pytree_node" with
+  | some v => decide (v ≠ 0)
+  | none => true
+
+/-- the data / static partition `struct.dataclass` computes for a class body (the caller's `store` is not
+an output: nothing writes to it) -/
+def declare (store : List Meta) (fs : List FieldSpec) : List (String × Bool) :=
+  fs.map (fun f => (f.name, metaFlag (fieldMeta store f)))
+
+/-- NOT the shipped behaviour (kept for the counter-example): a `field` that writes `'pytree_node'` into the
+caller's dict and hands that same object to `dataclasses.field`; the flags are read when the class is
+created, i.e. after all `field` calls of the body have run -/
+def declareMutatingOrig (store : List Meta) (fs : List FieldSpec) : List Meta × List (String × Bool) :=
+  let store' := fs.foldl (fun st f =>
+    match f.metaId with
+    | some i =>
+      match st[i]? with
+      | some m => st.set i (metaSet m "pytree_node" (if f.node then 1 else 0))
+      | none => st
+    | none => st) store
+  (store', fs.map (fun f =>
+    match f.metaId with
+    | some _ => (f.name, metaFlag (callerMeta store' f.metaId))
+    | none => (f.name, f.node)))
+
 end Flax.Struct
